@@ -133,6 +133,8 @@ PERSIST_HARNESSES = [
        tier=("quick" if j_ == 7 else "thorough"))
     for j_ in (0, 7, 51)
 ] + [
+    KH("O3.4/short_write_any", "c03_o4_short_write_any", "append_internal_with_rollback: the frame write stops after ANY j < 52 bytes (symbolic) and fails => Err and full restoration",
+       src="persistence.rs", functions=FPS, bounds="one good frame; second append cut at a symbolic byte 0..51", assumptions=PA3, timeout=3000, replay="solver-only", tier="thorough"),
     KH("O3.4/failed_fsync", "c03_o4_failed_fsync_rolled_back", "append_internal_with_rollback: frame fully written but the fsync fails => Err and the same restoration",
        src="persistence.rs", functions=FPS, bounds="one good frame; second append whose sync_all fails", assumptions=PA3, timeout=1500, replay="solver-only", tier="thorough"),
     KH("O3.4/rollback_fails", "c03_o4_rollback_failure_surfaces", "append_internal_with_rollback: when the rollback's own set_len or seek fails the call still returns Err (never acknowledged)",
